@@ -29,6 +29,15 @@ Theorem c01_count :
 Proof. exact refines_count. Qed.
 Print Assumptions c01_count.
 
+(* the same in terms of the boolean the correspondence run uses (store_eqb: equal id sets, doc_eqb documents),
+   for histories whose documents have unique keys (decoded msgpack maps) *)
+Theorem c01_refines_eqb :
+  forall (sc : schema) (maxsize : N) (h : list batch) (css : list (list N)) (m : mstate) (outs : list sout),
+    hist_wf h -> runM sc maxsize h css m_init = Some (m, outs) ->
+    store_eqb (abs m) (fst (runS sc maxsize h [])) = true.
+Proof. exact refines_eqb. Qed.
+Print Assumptions c01_refines_eqb.
+
 (* reads by id: GetPointByUUID on M's bucket = the document abs / S hold *)
 Theorem c01_reads :
   forall (sc : schema) (maxsize : N) (m : mstate), reachable sc maxsize m ->
@@ -153,6 +162,9 @@ Example c01_example_run :
     store_equivb (abs m) [(ua, []); (ub, [(kx, VNil)]); (ud, [(ky, VBool true)])] = true /\
     store_equivb (abs m) (fst (runS [] 1000 ex_h [])) = true.
 Proof. eexists. eexists. vm_compute. repeat split; reflexivity. Qed.
+
+Example c01_example_hist_wf : hist_wf ex_h.
+Proof. repeat constructor; cbn; intuition discriminate. Qed.
 
 (* the choice [4] instead of [3] (not the free id) is illegal, and so is a fresh id while the free list is non-empty *)
 Example c01_example_illegal_choice :
